@@ -135,8 +135,15 @@ def build_reply(t, req, prev_txid):
     return d
 
 
-def good_connect(rng, extra=0):
-    return {"action": 0, "txid": "echo", "body": (rng.getrandbits(64).to_bytes(8, "big") + bytes(rng.getrandbits(8) for _ in range(extra))).hex()}
+# connection ids a tracker may legitimately hand out and that an implementation might mistake for "none" / a sentinel
+SPECIAL_CONN = [0, 1, 0x41727101980, 1 << 32, (1 << 32) - 1, 1 << 63, (1 << 63) - 1, (1 << 64) - 1, 0x100, 0xff00000000000000]
+SPECIAL_U32 = [0, 1, 0x7fffffff, 0x80000000, 0xffffffff]
+
+
+def good_connect(rng, extra=0, conn=None):
+    if conn is None:
+        conn = rng.choice(SPECIAL_CONN) if rng.random() < 0.12 else rng.getrandbits(64)
+    return {"action": 0, "txid": "echo", "body": (conn.to_bytes(8, "big") + bytes(rng.getrandbits(8) for _ in range(extra))).hex()}
 
 
 def peer_bytes(rng, n, stride, dup=False):
@@ -144,13 +151,15 @@ def peer_bytes(rng, n, stride, dup=False):
     for _ in range(n):
         if dup and recs and rng.random() < 0.3:
             recs.append(rng.choice(recs))
+        elif rng.random() < 0.04:      # records made of extreme bytes: address 0.0.0.0 / all ones, port 0 / 65535
+            recs.append(rng.choice([bytes(stride), b"\xff" * stride, bytes(stride - 2) + b"\xff\xff", b"\xff" * (stride - 2) + bytes(2)]))
         else:
             recs.append(bytes(rng.getrandbits(8) for _ in range(stride)))
     return b"".join(recs)
 
 
 def good_announce(rng, n, stride, dup=False):
-    hdr = struct.pack(">III", rng.getrandbits(32), rng.getrandbits(32), rng.getrandbits(32))
+    hdr = struct.pack(">III", *[rng.choice(SPECIAL_U32) if rng.random() < 0.15 else rng.getrandbits(32) for _ in range(3)])
     return {"action": 1, "txid": "echo", "body": (hdr + peer_bytes(rng, n, stride, dup)).hex()}
 
 
@@ -210,6 +219,13 @@ def gen_cases(ctx):
             add("announce-ragged-%d" % extra, [good_connect(rng)], [t], v6)
     add("announce-1362-peers-8192-bytes", [good_connect(rng)], [good_announce(rng, 1362, 6)])
 
+    for cid in SPECIAL_CONN:
+        add("connect-id-%#x" % cid, [good_connect(rng, conn=cid)], [good_announce(rng, 3, 6)])
+    # the same record several times, adjacent and apart, in one reply: printed once
+    rec = [bytes(rng.getrandbits(8) for _ in range(6)) for _ in range(3)]
+    hdr12 = struct.pack(">III", 1800, 1, 2).hex()
+    for name, order in (("apart", [0, 1, 0]), ("adjacent", [0, 0, 1]), ("apart-twice", [0, 1, 2, 0, 1]), ("all-same", [2, 2, 2, 2])):
+        add("announce-repeat-" + name, [good_connect(rng)], [{"action": 1, "txid": "echo", "body": hdr12 + b"".join(rec[i] for i in order).hex()}])
     # --- random streams
     n_random = ctx.n(1500, 100000)
     for _ in range(n_random):
